@@ -1,3 +1,333 @@
-/- C08 — property theorems (stub: the property is not claimed yet). -/
+/-
+  C08 — All views of an element's attributes agree after any sequence of attribute edits.
+
+  Property theorems only.  Model: AHP/Model/Attrs.lean (executed by the native driver); lemmas: AHP/Lemmas/Attrs*.lean.
+
+  `viewList e` = `getAttributesList()` = the association list the dict shows after the lazy synchronisation.
+  C08a says: every other view — computed by the model function of *its own* read path, with its own
+  synchronisation calls — is a projection of `viewList e`, in the same order.  C08b: the invariant over all
+  histories.  C08c: invalid names.  C08d: the rendered start tag read back.  C08e: copies.
+  `T : Tables` (constants.py) is universally quantified.  "Ordinary key" = neither `class` nor `style`
+  (C09 / C10 treat those) and not a boolean-*string* attribute (`spellcheck`, whose value is normalised to
+  "true"/"false" by the store).
+-/
+import AHP.Lemmas.AttrsMap
 namespace AHP.C08
+open AHP AHP.Attrs
+
+def Reach (T : Tables) (e : El) : Prop :=
+  ∃ tag sc attrs ops, e = run T (mk T tag sc attrs) ops
+
+/-- an ordinary key, as stored (lower-case) -/
+structure Ordinary (T : Tables) (k : Str) : Prop where
+  notClass : lower k ≠ classK
+  notStyle : lower k ≠ styleK
+  notBinStr : T.binStr.contains (lower k) = false
+
+/-! ### C08b — the invariant over all histories -/
+
+theorem reach_inv {T : Tables} {e : El} (h : Reach T e) : DictInv e := by
+  obtain ⟨tag, sc, attrs, ops, rfl⟩ := h
+  exact dictInv_run T ops (dictInv_mk T tag sc attrs)
+
+theorem inv_step (T : Tables) (op : Op) {e : El} (h : DictInv e) : DictInv (step T e op).2 := dictInv_step T op h
+
+/-- C08b: in every reachable state the names every view lists are pairwise distinct, valid and lower-case. -/
+theorem stored_names {T : Tables} {e : El} (h : Reach T e) :
+    (akeys (viewList e)).Nodup ∧ ∀ k ∈ akeys (viewList e), validName k = true ∧ lower k = k := by
+  have hi := dictInv_handleClassAttr (reach_inv h)
+  rw [akeys_viewList]
+  refine ⟨hi.nodup, ?_⟩
+  intro k hk
+  obtain ⟨p, hp, rfl⟩ := List.mem_map.mp hk
+  exact ⟨(hi.slots p hp).1, (hi.slots p hp).2.1⟩
+
+/-- C08b: names are matched case-insensitively: every accessor lower-cases the key first (writers and readers) -/
+theorem case_insensitive (T : Tables) (k : Str) (v : Option Str) (d : PyVal) (e : El) :
+    mapSet T (lower k) v e = mapSet T k v e ∧ mapDel (lower k) e = mapDel k e ∧
+    contains (lower k) e = contains k e ∧ getitem T (lower k) e = getitem T k e ∧
+    mapGet T (lower k) d e = mapGet T k d e ∧ hasAttribute (lower k) e = hasAttribute k e ∧
+    removeAttribute (lower k) e = removeAttribute k e := by
+  refine ⟨?_, ?_, ?_, ?_, ?_, ?_, ?_⟩
+  · unfold mapSet; rw [lower_idem]
+  · unfold mapDel; rw [lower_idem]
+  · unfold contains; rw [lower_idem]
+  · unfold getitem; rw [lower_idem]
+  · unfold mapGet; rw [lower_idem]
+  · unfold hasAttribute; rw [lower_idem]
+  · unfold removeAttribute; rw [lower_idem]
+
+/-! ### C08c — an invalid name is rejected with KeyError and changes nothing -/
+
+theorem invalid_setAttribute (T : Tables) {k : Str} (h : validName k = false) (v : Option Str) (e : El) :
+    setAttribute T k v e = (.keyError, e) := setAttribute_invalid T h v e
+
+theorem invalid_mapSet (T : Tables) {k : Str} (h : validName k = false) (v : Option Str) (e : El) :
+    mapSet T k v e = (.keyError, e) := mapSet_invalid T h v e
+
+theorem invalid_mapDel {T : Tables} {k : Str} (h : validName k = false) {e : El} (hr : Reach T e) :
+    mapDel k e = e ∧ removeAttribute k e = e := by
+  refine ⟨mapDel_invalid h (reach_inv hr), ?_⟩
+  unfold removeAttribute
+  exact mapDel_invalid (by rw [validName_lower]; exact h) (reach_inv hr)
+
+/-- `setAttributes`: the first invalid name raises; the names before it were set, it and the rest change nothing -/
+theorem invalid_setAttributes (T : Tables) : ∀ (l1 : List (Str × Option Str)) {k : Str} (v : Option Str)
+    (l2 : List (Str × Option Str)) (e : El), (∀ p ∈ l1, validName p.1 = true) → validName k = false →
+    setAttributes T (l1 ++ (k, v) :: l2) e = (.keyError, (setAttributes T l1 e).2)
+  | [], k, v, l2, e, _, hk => by
+    simp only [List.nil_append, setAttributes]
+    rw [setAttribute_invalid T hk]
+  | (n, w) :: l1, k, v, l2, e, h1, hk => by
+    have hn := h1 (n, w) (by simp)
+    have ho := setAttribute_valid T hn w e
+    simp only [List.cons_append, setAttributes]
+    rcases hs : setAttribute T n w e with ⟨o, e'⟩
+    rw [hs] at ho
+    simp only at ho
+    subst ho
+    simp only
+    exact invalid_setAttributes T l1 v l2 e' (fun p hp => h1 p (List.mem_cons_of_mem _ hp)) hk
+
+/-- a valid name is accepted -/
+theorem valid_accepted (T : Tables) {k : Str} (h : validName k = true) (v : Option Str) (e : El) :
+    (setAttribute T k v e).1 = .ok := setAttribute_valid T h v e
+
+/-! ### C08a — every view is a projection of the one list, in one order -/
+
+/-- `attributes.items()` -/
+theorem items_proj (e : El) : (items e).1.map (fun p => (p.1, p.2.tostrOpt)) = viewList e := rfl
+
+/-- `attributes.keys()`, iteration -/
+theorem keys_proj (e : El) : (keys e).1 = akeys (viewList e) := by
+  rw [keys_fst, akeys_viewList]
+
+/-- the DOM node map lists the same names in the same order -/
+theorem domKeys_proj {e : El} (h : DictInv e) : (domKeys e).1 = akeys (viewList e) := by
+  unfold domKeys
+  simp only
+  rw [keys_proj]
+  apply List.filter_eq_self.mpr
+  intro k hk
+  have hi := dictInv_handleClassAttr h
+  show contains k (handleClassAttr e) = true
+  rw [contains_eq_viewList hi]
+  have hl : lower k = k := by
+    rw [akeys_viewList] at hk
+    obtain ⟨p, hp, rfl⟩ := List.mem_map.mp hk
+    exact (hi.slots p hp).2.1
+  rw [hl, viewList_sync]
+  exact ahas_iff_mem.mpr hk
+
+/-- the rendered start tag lists the same names in the same order … -/
+theorem startTag_names (T : Tables) (e : El) : (startTagItems T e).1.map RItem.name = akeys (viewList e) := by
+  rw [startTagItems_fst, List.map_map, akeys_viewList, ← akeys_items]
+  unfold akeys
+  apply List.map_congr_left
+  intro p _
+  exact renderItem_name T p
+
+/-- … and so does the attribute list read back from it -/
+theorem readBack_names (T : Tables) (e : El) : akeys (readBack (startTagItems T e).1) = akeys (viewList e) := by
+  rw [akeys_readBack, akeys_viewList]
+
+/-- `in`, for every key (class and style included) -/
+theorem contains_proj {e : El} (h : DictInv e) (k : Str) : contains k e = (aget (lower k) (viewList e)).isSome :=
+  contains_eq_viewList h k
+
+/-- `hasAttribute` -/
+theorem hasAttribute_proj {e : El} (h : DictInv e) (k : Str) : hasAttribute k e = (aget (lower k) (viewList e)).isSome := by
+  unfold hasAttribute
+  rw [contains_eq_viewList h, lower_idem]
+
+/-- `attributes[k]` -/
+theorem getitem_proj (T : Tables) {e : El} (h : DictInv e) {k : Str} (ho : Ordinary T k) :
+    getitem T k e = pyOfOpt ((aget (lower k) (viewList e)).join) :=
+  getitem_eq_viewList T h ho.notClass ho.notStyle ho.notBinStr
+
+/-- `attributes.get(k, default)` -/
+theorem mapGet_proj (T : Tables) {e : El} (h : DictInv e) {k : Str} (ho : Ordinary T k) (d : PyVal) :
+    (mapGet T k d e).1 = match aget (lower k) (viewList e) with
+      | none => d
+      | some v => pyOfOpt v :=
+  mapGet_eq_viewList T h ho.notClass ho.notStyle ho.notBinStr d
+
+/-- `getAttribute(k, default)` for a name that is not a boolean attribute -/
+theorem getAttribute_proj (T : Tables) {e : El} (h : DictInv e) {k : Str} (ho : Ordinary T k)
+    (hb : T.binary.contains k = false) (d : PyVal) :
+    (getAttribute T k d e).1 = match aget (lower k) (viewList e) with
+      | none => d
+      | some v => pyOfOpt v := by
+  unfold getAttribute
+  rw [hb]
+  exact mapGet_proj T h ho d
+
+/-- `getAttribute(k)` for a boolean attribute: False when absent, True when present without a (non-empty) value -/
+theorem getAttribute_boolean (T : Tables) {e : El} (h : DictInv e) {k : Str} (ho : Ordinary T k)
+    (hb : T.binary.contains k = true) (d : PyVal) :
+    (getAttribute T k d e).1 = match aget (lower k) (viewList e) with
+      | none => .bool false
+      | some v => if (pyOfOpt v).falsy then .bool true else pyOfOpt v := by
+  unfold getAttribute
+  rw [hb]
+  simp only [if_true]
+  rw [contains_proj h, getitem_proj T h ho]
+  rcases aget (lower k) (viewList e) with _ | v
+  · rfl
+  · cases v <;> rfl
+
+/-- the DOM node under a name: its name is the stored (lower-case) one, its value the listed one -/
+theorem domItem_proj (T : Tables) {e : El} (h : DictInv e) {k : Str} (ho : Ordinary T k) :
+    domItem T k e = (aget (lower k) (viewList e)).map (fun v => (lower k, pyOfOpt v)) := by
+  unfold domItem
+  simp only
+  have ho' : Ordinary T (lower k) := ⟨by rw [lower_idem]; exact ho.notClass, by rw [lower_idem]; exact ho.notStyle,
+    by rw [lower_idem]; exact ho.notBinStr⟩
+  rw [contains_proj h, getitem_proj T h ho', lower_idem]
+  rcases aget (lower k) (viewList e) with _ | v
+  · rfl
+  · cases v <;> rfl
+
+/-- dot access of a linked name without a special rule: the listed value of its html attribute, else the default
+    (`''`, or `None` for event attributes) -/
+theorem dotGet_plain (T : Tables) {e : El} (h : DictInv e) {n : Str} {L : Link} (hn : n ≠ classNameK)
+    (hl : aget n T.links = some L) (hs : L.special = false) (hbs : L.binStr = false) (hb : L.bin = false)
+    (ho : Ordinary T L.attr) (hnb : T.binary.contains L.attr = false) :
+    (dotGet T n e).1 = some (match aget (lower L.attr) (viewList e) with
+      | none => if L.event then .none else .str []
+      | some v => pyOfOpt v) := by
+  unfold dotGet
+  simp only [hn, if_false, hl, hs, hbs, hb, Bool.false_eq_true]
+  congr 1
+  exact getAttribute_proj T h ho hnb _
+
+/-- dot access of a boolean linked name: True exactly when the attribute is listed -/
+theorem dotGet_boolean (T : Tables) {e : El} (h : DictInv e) {n : Str} {L : Link} (hn : n ≠ classNameK)
+    (hl : aget n T.links = some L) (hs : L.special = false) (hbs : L.binStr = false) (hb : L.bin = true)
+    (ho : Ordinary T L.attr) (hnb : T.binary.contains L.attr = true) :
+    (dotGet T n e).1 = some (.bool (aget (lower L.attr) (viewList e)).isSome) := by
+  unfold dotGet
+  simp only [hn, if_false, hl, hs, hbs, hb, Bool.false_eq_true, if_true]
+  congr 2
+  rw [getAttribute_boolean T h ho hnb]
+  rcases aget (lower L.attr) (viewList e) with _ | v
+  · rfl
+  · cases v with
+    | none => rfl
+    | some s =>
+      by_cases hs0 : s = []
+      · subst hs0; rfl
+      · have : s.isEmpty = false := by simpa using hs0
+        simp [pyOfOpt, PyVal.falsy, this]
+
+/-! ### C08d — the rendered start tag, read back -/
+
+theorem items_ordinary {e : El} (h : DictInv e) {k : Str} (hc : k ≠ classK) (hs : k ≠ styleK) :
+    aget k (items e).1 = (aget k (viewList e)).map pyOfOpt := by
+  rw [viewList_ordinary h hc hs, aget_items, aget_other_sync e hc hs]
+  unfold rawLookup
+  rcases hg : aget k e.dict with _ | s
+  · rfl
+  · obtain ⟨v, rfl⟩ := slot_of_ordinary h hc hs hg
+    cases v <;> rfl
+
+theorem readBack_lookup (T : Tables) {e : El} (h : DictInv e) {k : Str} (hc : k ≠ classK) (hs : k ≠ styleK) :
+    aget k (readBack (startTagItems T e).1) = (aget k (viewList e)).map (fun v => readBackVal T k (pyOfOpt v)) := by
+  rw [aget_readBack, items_ordinary h hc hs]
+  rcases aget k (viewList e) with _ | v <;> rfl
+
+/-- a value-less attribute renders as a bare name and reads back value-less -/
+theorem rendered_valueless (T : Tables) {e : El} (h : DictInv e) {k : Str} (hc : k ≠ classK) (hs : k ≠ styleK)
+    (hv : aget k (viewList e) = some none) : aget k (readBack (startTagItems T e).1) = some none := by
+  rw [readBack_lookup T h hc hs, hv]
+  rfl
+
+/-- a boolean attribute with an empty value renders as a bare name (and reads back present, without a value) -/
+theorem rendered_boolean_empty (T : Tables) {e : El} (h : DictInv e) {k : Str} (hc : k ≠ classK) (hs : k ≠ styleK)
+    (hb : T.binary.contains k = true) (hv : aget k (viewList e) = some (some [])) :
+    aget k (readBack (startTagItems T e).1) = some none := by
+  rw [readBack_lookup T h hc hs, hv]
+  have hb' : k ∈ T.binary := List.contains_iff_mem.mp hb
+  simp [readBackVal, renderItem, pyOfOpt, PyVal.falsy, hb']
+
+/-- every other value is rendered between quotes with `"` escaped and reads back unchanged -/
+theorem rendered_value (T : Tables) {e : El} (h : DictInv e) {k : Str} (hc : k ≠ classK) (hs : k ≠ styleK) {s : Str}
+    (hne : s ≠ [] ∨ T.binary.contains k = false) (hamp : '&' ∉ s) (hv : aget k (viewList e) = some (some s)) :
+    aget k (readBack (startTagItems T e).1) = some (some s) := by
+  rw [readBack_lookup T h hc hs, hv]
+  simp only [Option.map, readBackVal, renderItem, pyOfOpt]
+  by_cases hs0 : s = []
+  · subst hs0
+    rcases hne with hne | hne
+    · exact absurd rfl hne
+    · have hne' : k ∉ T.binary := fun hm => by
+        rw [List.contains_iff_mem.mpr hm] at hne; cases hne
+      simp [PyVal.falsy, hne', escQ, replaceQuote, unescQ]
+  · have : s.isEmpty = false := by simpa using hs0
+    simp [PyVal.falsy, PyVal.tostrOpt, this, unescQ_escQ hamp]
+
+/-- C08d: the element obtained by re-parsing the start tag holds, under every ordinary key, what was read back -/
+theorem reparse_lookup (T : Tables) {e : El} (h : DictInv e) {k : Str} (hc : k ≠ classK) (hs : k ≠ styleK)
+    (hb : T.binStr.contains k = false) :
+    aget k (viewList (reparse T e).1) = aget k (readBack (startTagItems T e).1) := by
+  have hg := goodKeys_of_sync h (akeys_readBack T e)
+  unfold reparse
+  simp only
+  rw [viewList_ordinary (dictInv_mk T _ _ _) hc hs, mk_rawLookup T _ _ _ hg hc hs]
+  unfold normVal
+  rw [hb]
+  rcases aget k (readBack (startTagItems T e).1) with _ | v <;> rfl
+
+/-- C08d: "reads back as present": presence of every ordinary key survives the re-parse -/
+theorem reparse_presence (T : Tables) {e : El} (h : DictInv e) {k : Str} (ho : Ordinary T k) :
+    hasAttribute k (reparse T e).1 = hasAttribute k e := by
+  have hi : DictInv (reparse T e).1 := dictInv_mk T _ _ _
+  rw [hasAttribute_proj hi, hasAttribute_proj h, reparse_lookup T h ho.notClass ho.notStyle ho.notBinStr,
+      readBack_lookup T h ho.notClass ho.notStyle]
+  rcases aget (lower k) (viewList e) with _ | v <;> rfl
+
+/-- C08d: a boolean attribute with an empty value reads back as present: `getAttribute` is `True` on the re-parsed element -/
+theorem reparse_boolean_true (T : Tables) {e : El} (h : DictInv e) {k : Str} (ho : Ordinary T k) (hl : lower k = k)
+    (hb : T.binary.contains k = true) (hv : aget k (viewList e) = some (some [])) (d : PyVal) :
+    (getAttribute T k d (reparse T e).1).1 = .bool true := by
+  have hi : DictInv (reparse T e).1 := dictInv_mk T _ _ _
+  have hc : k ≠ classK := by rw [← hl]; exact ho.notClass
+  have hs : k ≠ styleK := by rw [← hl]; exact ho.notStyle
+  rw [getAttribute_boolean T hi ho hb, hl, reparse_lookup T h hc hs (by rw [← hl]; exact ho.notBinStr),
+      rendered_boolean_empty T h hc hs hb hv]
+  rfl
+
+/-! ### C08e — cloneNode, copy, repr, unpickling reproduce the mapping -/
+
+/-- under every ordinary key the copy lists exactly the value of the original (`None` stays `None`) -/
+theorem clone_lookup (T : Tables) {e : El} (h : DictInv e) {k : Str} (hc : k ≠ classK) (hs : k ≠ styleK)
+    (hb : T.binStr.contains k = false) :
+    aget k (viewList (clone T e).1) = aget k (viewList e) := by
+  have hg := goodKeys_of_sync h (akeys_attrsList e)
+  unfold clone
+  simp only
+  rw [viewList_ordinary (dictInv_mk T _ _ _) hc hs, mk_rawLookup T _ _ _ hg hc hs]
+  unfold normVal
+  rw [hb]
+  show Option.map (fun v => v) (aget k (viewList e)) = _
+  rcases aget k (viewList e) with _ | v <;> rfl
+
+/-- taking the copy reads `getAttributesList()` of the original: it synchronises it and changes nothing else -/
+theorem clone_reads_only (T : Tables) (e : El) : (clone T e).2 = handleClassAttr e := rfl
+
+/-! ### non-vacuity -/
+
+def T0 : Tables := { binary := [['c', 'h', 'e', 'c', 'k', 'e', 'd']], binStr := [], links := [] }
+def kFoo : Str := ['f', 'o', 'o']
+def kChecked : Str := ['c', 'h', 'e', 'c', 'k', 'e', 'd']
+
+example : Ordinary T0 kFoo := ⟨by decide, by decide, by decide⟩
+
+/-- `setAttribute('FOO', 'v')`, `attributes['checked'] = ''`, then a rejected `attributes['a b'] = 'x'` -/
+example : viewList (run T0 (mk T0 ['d', 'i', 'v'] false [])
+      [.setAttr ['F', 'O', 'O'] (some ['v']), .mapSet kChecked (some []), .mapSet ['a', ' ', 'b'] (some ['x'])])
+    = [(kFoo, some ['v']), (kChecked, some [])] := by decide
+
+example : (step T0 (mk T0 ['d', 'i', 'v'] false []) (.mapSet ['a', ' ', 'b'] (some ['x']))).1 = .keyError := by decide
+
 end AHP.C08
